@@ -3,8 +3,10 @@
 package redisemu
 
 import (
+	"fmt"
 	"net"
 	"runtime/debug"
+	"sort"
 	"sync"
 	"sync/atomic"
 )
@@ -31,6 +33,9 @@ type SimHooks struct {
 	PersistStage func(stage string, path string)
 	// replaces net.Listen
 	Listen func(network, addr string) (net.Listener, error)
+	// a select with n cases is about to be entered: which case is looked at
+	// first if several are ready (Go picks at random); -1 = no preference
+	SelectFirst func(site string, n int) int
 }
 
 var simHooks atomic.Pointer[SimHooks]
@@ -99,9 +104,66 @@ func simPersistStage(stage string, path string) {
 	}
 }
 
+func simSelectFirst(site string, n int) int {
+	if h := simHooks.Load(); h != nil && h.SelectFirst != nil {
+		return h.SelectFirst(site, n)
+	}
+	return -1
+}
+
 func netListen(network, addr string) (net.Listener, error) {
 	if h := simHooks.Load(); h != nil && h.Listen != nil {
 		return h.Listen(network, addr)
 	}
 	return net.Listen(network, addr)
+}
+
+// Go randomises map iteration order, which no simulator can control. While
+// hooks are installed, the tables whose iteration order decides which lock or
+// connection is touched next (client registry, connections of an instance,
+// databases to save, watched keys) are walked in a canonical order, so that
+// one seed is one execution.
+func simKeys[K comparable, V any](m map[K]V, less func(a, b K) bool) []K {
+	keys := make([]K, 0, len(m))
+	for k := range m {
+		keys = append(keys, k)
+	}
+	if simHooks.Load() != nil {
+		sort.Slice(keys, func(i, j int) bool { return less(keys[i], keys[j]) })
+	}
+	return keys
+}
+
+// canonical order of reply values used as set members or map keys
+func simRespLess(a, b respValue) bool { return fmt.Sprint(a.data) < fmt.Sprint(b.data) }
+
+var (
+	simOrdMu   sync.Mutex
+	simOrdNext int64
+	simOrds    = map[any]int64{}
+)
+
+// simNewObject records the creation order of an object that is later used as
+// (part of) a map key, so that simKeys has something stable to sort by.
+func simNewObject(p any) {
+	if simHooks.Load() == nil {
+		return
+	}
+	simOrdMu.Lock()
+	simOrdNext++
+	simOrds[p] = simOrdNext
+	simOrdMu.Unlock()
+}
+
+func simOrdinal(p any) int64 {
+	simOrdMu.Lock()
+	defer simOrdMu.Unlock()
+	return simOrds[p]
+}
+
+func simResetOrdinals() {
+	simOrdMu.Lock()
+	simOrdNext = 0
+	simOrds = map[any]int64{}
+	simOrdMu.Unlock()
 }
